@@ -49,6 +49,10 @@ type Session struct {
 	done     chan struct{}
 	wg       sync.WaitGroup
 	MapOrder bool // enumerate map iteration orders as choices
+	// DelayBound: every non-default choice costs one deviation, including the choice among enabled threads when
+	// the running thread blocks or ends (delay-bounded scheduling); otherwise those forced switches are free
+	// (preemption bounding).
+	DelayBound bool
 	Log      []string
 	Trace    bool
 	nextTID  int
@@ -176,6 +180,8 @@ func (s *Session) decide(self *thread, selfEnabled bool) *thread {
 				c := 0
 				if self != nil && selfEnabled {
 					c = 1 // preemption of a runnable thread
+				} else if s.DelayBound && len(opts) > 0 {
+					c = 1 // delay bounding: a forced switch to anything but the first enabled thread is a deviation too
 				}
 				opts = append(opts, option{t: t, cost: c})
 			}
@@ -199,9 +205,9 @@ func (s *Session) decide(self *thread, selfEnabled bool) *thread {
 				evs[j], evs[j-1] = evs[j-1], evs[j]
 			}
 		}
-		for _, e := range evs {
-			if real > 0 {
-				e.cost = 1 // time passing while a thread could run
+		for i, e := range evs {
+			if real > 0 || i > 0 {
+				e.cost = 1 // time passing while a thread could run, or a later event overtaking an earlier one
 			}
 			opts = append(opts, e)
 		}
